@@ -5,6 +5,7 @@ import warnings
 import numpy as np
 
 from .. import core, fit_lib as fl, rowlocal_lib as rl
+from . import c15
 
 PRIME = 7927
 HOW = ("X, Z = harness.rowlocal_lib.make_data(input['data']); m = harness.rowlocal_lib.build(input['estimator'], input['params'], X); "
@@ -523,6 +524,7 @@ def run(ctx):
                 "within that tolerance (counted).  "
                 "non-trivial = sigma is not the identity and the selected predictions contain >= 2 distinct rows; distinct = hash of (estimator, parameters, "
                 "data, array, sigma, layout)")
+    c15.regen(ctx)          # Gen/Douglas.lean follows the current source before the Douglas theorems + companion C15Gen are re-checked
     ctx.do_prove()
     ctx.trusted = [t for t in ctx.trusted if "over the reals" not in t] + [
         "C18 theorems are generic in the number type (they hold at Float bit for bit for the model's fixed summation order); what BLAS does on another "
